@@ -345,6 +345,23 @@ func genHistoryCase(cx *CheckCtx, i int) *Case {
 				a = "."
 			}
 			c.Ops = append(c.Ops, Op{Kind: OpHintAlias, F: 0, Str: []string{p, a}})
+		case 7:
+			// settings changed between renders, and statements shared between two places
+			switch r.Intn(5) {
+			case 0:
+				c.Ops = append(c.Ops, Op{Kind: OpSet, F: 0, Str: []string{"prefix", pick(r, []string{"pkg", "q", ""})}})
+			case 1:
+				c.Ops = append(c.Ops, Op{Kind: OpSet, F: 0, Str: []string{"canonical", pick(r, []string{"a.com/canon", ""})}})
+			case 2:
+				c.Ops = append(c.Ops, Op{Kind: OpPkgComment, F: 0, Str: []string{"about the package"}})
+			case 3:
+				c.Ops = append(c.Ops, Op{Kind: OpHeader, F: 0, Str: []string{"generated"}})
+			default:
+				if len(regs) > 0 {
+					// the same statement pointer added to the file a second time
+					c.Ops = append(c.Ops, Op{Kind: OpFAdd, F: 0, Args: []Arg{st(kw("Var"), id("_"), op("="), &AddItems{Args: []Arg{Ref{Reg: pick(r, regs)}}})}})
+				}
+			}
 		case 6:
 			if len(regs) > 0 {
 				c.Ops = append(c.Ops, Op{Kind: OpFrag, S: pick(r, regs), F: 0})
